@@ -18,7 +18,8 @@ from __future__ import annotations
 import ast
 
 from .. import ctx
-from ..pattern import canon
+from .. import paths
+from ..pattern import canon, match
 from ..project import AnalysisError, call_name, kwarg, norm, walk_no_nested
 from ..roles import MarshalRoles
 from ..specialise import Specialiser
@@ -48,16 +49,13 @@ def check(run, project):
     o2e = mod.functions().get("obj_to_events")
     if o2e is None:
         raise AnalysisError("C11: obj_to_events not found")
-    # ---- A1
+    # ---- A1 / A2 / A3 (path summaries of obj_to_events)
+    got, prefix = a123(run, mod, o2e)
     skip = skippable_fields(roles, L)
-    tuples = [n for n in walk_no_nested(o2e) if isinstance(n, ast.Compare) and isinstance(n.ops[0], ast.In) and norm(n.left) == "field.name"
-              and isinstance(n.comparators[0], ast.Tuple)]
-    run.require(len(tuples) == 1, "C11: invisible-field tuple of obj_to_events not found")
-    got = {e.value for e in tuples[0].comparators[0].elts if isinstance(e, ast.Constant)}
     run.ob("A1", got == skip, f"invisible-when-None fields = fields the framing can skip ({sorted(skip)})",
            f"obj_to_events hides {sorted(got)} but the decoder can omit {sorted(skip)}: " +
            (f"{sorted(skip - got)} would get a spurious empty-field event; " if skip - got else "") +
-           (f"{sorted(got - skip)} would lose its empty-field marker" if got - skip else ""), module=mod, node=tuples[0],
+           (f"{sorted(got - skip)} would lose its empty-field marker" if got - skip else ""), module=mod, node=o2e,
            func="obj_to_events", construct="invisible field names")
     # only Command/Response have fields of those names... elsewhere a None field of that name would be hidden wrongly
     for k, c in L.all.items():
@@ -69,19 +67,12 @@ def check(run, project):
         run.ob("A1", not clash, f"{k}: no field shares a name with an invisible framing field",
                f"{k} has fields {clash}: when empty (None) they would be hidden instead of getting their empty-field marker",
                module=c.module, node=c.node, func=k, construct=f"{k} field names vs invisible set")
-    # ---- A2
-    ut = [n for n in walk_no_nested(o2e) if isinstance(n, ast.Call) and norm(n.func).endswith(".__name__.startswith") and n.args
-          and isinstance(n.args[0], ast.Constant)]
-    run.require(len(ut) == 1, "C11: union-name test of obj_to_events not found")
-    prefix = ut[0].args[0].value
     for k, c in L.all.items():
         if L.is_dataclass(c):
             run.ob("A2", c.name.startswith(prefix) == c.has("_selected_by"), f"{k}: name test '{prefix}' <=> is a union",
                    f"{k} {'is named like a union but has no _selected_by' if c.name.startswith(prefix) else 'is a union but not named ' + prefix + '*'}: "
                    "its absent members are (not) hidden inconsistently with the decoder", module=c.module, node=c.node, func=k,
                    construct=f"{k} union naming")
-    # ---- A3
-    a3(run, mod, o2e)
     # ---- A4
     a4(run, project, mod, roles)
     # ---- A5
@@ -104,93 +95,220 @@ def check(run, project):
     run.floor("A2", 500)
 
 
-def a3(run, mod, fn):
-    evs = [c for c in walk_no_nested(fn) if isinstance(c, ast.Call) and call_name(c) == "MarshalEvent"]
-    shapes = sorted(norm(c) for c in evs)
-    want = sorted([canon("MarshalEvent(path, type(obj), obj)"), canon("MarshalEvent(path, type(obj), ...)"),
-                   canon("MarshalEvent(path / PathNode(field.name), field.type, ...)"),
-                   canon("MarshalEvent(path / PathNode(field.name), field.type, ...)")])
-    run.ob("A3", shapes == want, "obj_to_events builds leaf / struct-parent / empty-marker / list-parent events in the decoder's shape",
-           f"event constructions are {shapes}", module=mod, node=fn, func=fn.name, construct="obj_to_events event shapes")
-    # struct parent before the field loop; fields in dataclass order
-    loops = [s for s in fn.body if isinstance(s, ast.For)]
-    fvars = [norm(s.targets[0]) for s in ast.walk(fn) if isinstance(s, ast.Assign) and norm(s.value) == canon("fields(obj)")]
-    ok = len(loops) == 1 and len(fvars) == 1 and norm(loops[0].iter) == fvars[0]
-    run.ob("A3", ok, "children are emitted in declaration order", "field iteration of obj_to_events changed", module=mod, node=fn,
-           func=fn.name, construct="obj_to_events field order")
-    if loops:
-        par = [s for s in fn.body if isinstance(s, ast.Expr) and isinstance(s.value, ast.Yield) and norm(s.value.value) == canon("MarshalEvent(path, type(obj), ...)")]
-        run.ob("A3", len(par) == 1 and fn.body.index(par[0]) < fn.body.index(loops[0]), "the struct's own event comes first",
-               "struct parent event is not emitted before its fields", module=mod, node=fn, func=fn.name, construct="obj_to_events parent first")
-        rec = [c for c in ast.walk(loops[0]) if isinstance(c, ast.Call) and call_name(c) == "obj_to_events"]
-        ok = len(rec) == 1 and norm(kwarg(rec[0], "obj")) == "getattr(obj, field.name)" and norm(kwarg(rec[0], "path")) == canon("path / PathNode(field.name)")
-        run.ob("A3", ok, "each field is converted at path / PathNode(field.name)", "recursion of obj_to_events changed", module=mod,
-               node=rec[0] if rec else fn, func=fn.name, construct="obj_to_events recursion")
-        lp = [s for s in loops[0].body if isinstance(s, ast.If) and norm(s.test) == "is_list(field.type)"]
-        run.ob("A3", len(lp) == 1, "a list field gets its list-parent event", "list-parent emission changed", module=mod, node=loops[0],
-               func=fn.name, construct="obj_to_events list parent")
-    # list elements: parent_path / PathNode(name, index=i)
-    el = [c for c in walk_no_nested(fn) if isinstance(c, ast.Call) and call_name(c) == "PathNode" and kwarg(c, "index") is not None]
-    ok = len(el) == 1 and norm(kwarg(el[0], "name")) == "elem_name" and norm(kwarg(el[0], "index")) == "i"
-    txt = norm(fn)
-    ok = ok and canon("parent_path = path[:-1]") in txt and canon("elem_name = path[-1].name") in txt and "enumerate(obj)" in txt
-    run.ob("A3", ok, "list elements get path[:-1] / PathNode(name, index=i)", "element paths of obj_to_events changed", module=mod,
-           node=el[0] if el else fn, func=fn.name, construct="obj_to_events element path")
+def label(p):
+    return " & ".join(("" if v else "not ") + a for a, v, _ in p.cond) or "always"
+
+
+def a123(run, mod, fn):
+    """obj_to_events, decided on the summaries of its paths. Returns (invisible names, union name prefix)."""
+    import re
+    S = paths.Summariser(mod, fn)
+    top = S.paths()
+    run.require(len(top) >= 3, "C11: fewer than three paths through obj_to_events")
+    loops = [s for s in ast.walk(fn) if isinstance(s, ast.For)]
+    names, prefixes = set(), set()
+    n_struct = n_list = n_leaf = 0
+    for p in top:
+        P = "path" if p.env.get("path") is None else paths.text(p.env["path"])
+        if p.truth("path is None") is True:
+            run.ob("A3", P == "Path(PathNode(PATH_NODE_ROOT_NAME))", "the default path is the decoder's root path",
+                   f"default path is `{P}`", module=mod, node=fn, func=fn.name, construct="obj_to_events default path")
+        fx = p.effect_texts()
+        not_dc = any(a.startswith("try@") and "TypeError" in a for a, v, _ in p.cond)
+        if not_dc:
+            is_list_ = p.truth("isinstance(obj, list)")
+            if is_list_ is None:
+                run.ob("A3", False, f"obj_to_events [{label(p)}]", "a non-dataclass node is neither handled as list nor as leaf",
+                       module=mod, node=p.node or fn, func=fn.name, construct="obj_to_events event shapes")
+            elif is_list_:
+                n_list += 1
+                lps = [(k, e, n) for k, e, n in p.effects if k == "loop"]
+                ok = len(lps) == 1 and isinstance(lps[0][2], ast.For) and isinstance(lps[0][2].target, ast.Tuple) \
+                    and len(lps[0][2].target.elts) == 2 and paths.text(lps[0][1]) == "enumerate(obj)" \
+                    and [k for k, _ in fx if k not in ("try-body",)] == ["loop"]
+                if ok:
+                    i, elem = (norm(x) for x in lps[0][2].target.elts)
+                    want = [("yieldfrom", f"obj_to_events(obj={elem}, path={P}[:-1] / PathNode(name={P}[-1].name, index={i}))")]
+                    body = p.loops[id(lps[0][2])]
+                    ok = all(b.effect_texts() == want and b.end == "fall" and not b.cond for b in body) and len(body) == 1
+                run.ob("A3", ok, "list elements get path[:-1] / PathNode(name, index=i), in order", "element paths of obj_to_events changed: "
+                       f"{[b.effect_texts() for b in p.loops.get(id(lps[0][2]), [])] if lps else fx}", module=mod,
+                       node=lps[0][2] if lps else fn, func=fn.name, construct="obj_to_events element path")
+            else:
+                n_leaf += 1
+                want = [("yield", f"MarshalEvent({P}, type(obj), obj)")]
+                run.ob("A3", [x for x in fx if x[0] != "try-body"] == want, "a leaf is one event (path, type(obj), obj)",
+                       f"leaf emission is {fx}", module=mod, node=p.node or fn, func=fn.name, construct="obj_to_events event shapes")
+            continue
+        # dataclass node: own event first, then the fields in declaration order
+        n_struct += 1
+        lps = [(k, e, n) for k, e, n in p.effects if k == "loop"]
+        want_head = ("yield", f"MarshalEvent({P}, type(obj), ...)")
+        run.ob("A3", fx[:1] == [want_head] and len(fx) == 2 and len(lps) == 1, "the struct's own event comes first",
+               f"struct emission is {fx[:3]}: struct parent event is not emitted (once) before its fields", module=mod, node=fn,
+               func=fn.name, construct="obj_to_events parent first")
+        if len(lps) != 1 or not isinstance(lps[0][2], ast.For) or not isinstance(lps[0][2].target, ast.Name):
+            raise AnalysisError("C11: field loop of obj_to_events not found")
+        lp = lps[0][2]
+        f_ = lp.target.id
+        run.ob("A3", paths.text(lps[0][1]) == "fields(obj)", "children are emitted in declaration order",
+               f"field iteration of obj_to_events is over `{paths.text(lps[0][1])}`", module=mod, node=lp, func=fn.name,
+               construct="obj_to_events field order")
+        V, Lst = f"getattr(obj, {f_}.name) is None", f"is_list({f_}.type)"
+        body = p.loops[id(lp)]
+        U = I = None
+        for b in body:
+            for a_, _v, _n in b.cond:
+                m = re.fullmatch(r"type\(obj\)\.__name__\.startswith\('(\w+)'\)", a_)
+                if m:
+                    U = a_
+                    prefixes.add(m.group(1))
+                m = re.fullmatch(re.escape(f_) + r"\.name in (\(.*\))", a_)
+                if m:
+                    I = a_
+                    try:
+                        names |= set(ast.literal_eval(m.group(1)))
+                    except Exception:
+                        raise AnalysisError(f"C11: invisible-field tuple of obj_to_events is not literal: {a_}")
+        if U is None or I is None:
+            raise AnalysisError("C11: invisible-field tuple / union-name test of obj_to_events not found")
+        FP = f"{P} / PathNode({f_}.name)"
+        marker = ("yield", f"MarshalEvent({FP}, {f_}.type, ...)")
+        rec = ("yieldfrom", f"obj_to_events(obj=getattr(obj, {f_}.name), path={FP})")
+        outcome = {(): "hide", (marker,): "marker", (marker, rec): "list", (rec,): "value"}
+        spec = [({V: True, U: True}, "hide"), ({V: True, I: True}, "hide"), ({V: True}, "marker"), ({Lst: True}, "list")]
+        for b in body:
+            got = outcome.get(tuple(b.effect_texts()))
+            want = paths.decide(spec, "value", b)
+            if got is None:
+                run.ob("A3", False, f"obj_to_events field [{label(b)}]", f"emits {b.effect_texts()}: not one of hidden / empty-field "
+                       f"marker `{marker[1]}` / list parent + value / value at `{FP}`", module=mod, node=b.node or lp, func=fn.name,
+                       construct="obj_to_events event shapes")
+                continue
+            kind = {"hide": "invisible field names", "marker": "obj_to_events event shapes", "list": "obj_to_events list parent",
+                    "value": "obj_to_events recursion"}[got if want != {"list"} else "list"]
+            run.ob("A3", want == {got} and b.end in ("fall", "continue"), f"obj_to_events field [{label(b)}]: {got}",
+                   f"the field is treated as `{got}` where the decoder's shape requires {sorted(want)}", module=mod,
+                   node=b.node or (b.cond[-1][2] if b.cond else lp), func=fn.name, construct=kind)
+    run.require(n_struct >= 1 and n_list >= 1 and n_leaf >= 1, "C11: struct / list / leaf paths of obj_to_events not all found")
+    run.require(len(prefixes) == 1, "C11: union-name test of obj_to_events not found")
+    return names, prefixes.pop()
+
+
+def decided(run, rule, mod, fn, spec, default, construct, what, values=None, atoms_needed=()):
+    """every path of fn returns what the decision list says (values: outcome name -> expected return text)"""
+    ps = paths.summarise(mod, fn)
+    for p in ps:
+        if p.end == "raise":
+            continue
+        got = p.value_text() if p.end == "return" else f"<{p.end}>"
+        want = paths.decide(spec, default, p)
+        run.ob(rule, want == {got}, f"{fn.name} [{label(p)}]: {got[:60]}", f"{what}: returns `{got}` where {sorted(want)} is required",
+               module=mod, node=p.node or fn, func=fn.name, construct=construct)
+    return ps
 
 
 def a4(run, project, mod, roles):
     d2o = mod.functions().get("_dict_to_obj")
     e2o = mod.functions().get("events_to_obj")
-    if d2o is None or e2o is None:
-        raise AnalysisError("C11: _dict_to_obj / events_to_obj not found")
-    cons = [c for c in walk_no_nested(d2o) if isinstance(c, ast.Call) and norm(c.func) == "tpm_type" and any(k.arg is None for k in c.keywords)]
-    ok = len(cons) == 1
-    kw = [s for s in walk_no_nested(d2o) if isinstance(s, ast.Assign) and norm(s.targets[0]) == "kwargs"]
-    ok = ok and len(kw) == 1 and norm(kw[0].value) == canon("{k: _to_obj(get_attr_type(k), v) for k, v in dict_obj.items()}")
-    run.ob("A4", ok, "objects are rebuilt as tpm_type(**{field name: converted value})", "_dict_to_obj construction changed", module=mod,
-           node=d2o, func=d2o.name, construct="_dict_to_obj construction")
+    to = mod.functions().get("_to_obj")
+    if d2o is None or e2o is None or to is None:
+        raise AnalysisError("C11: _dict_to_obj / events_to_obj / _to_obj not found")
+    # ---- _dict_to_obj
+    ps = paths.summarise(mod, d2o)
+    C, E, R = "tpm_type is Command", "TPMS_PARAMS.is_encrypted_params(dict_obj)", "tpm_type is Response"
+    run.require(len(ps) >= 4, "C11: paths of _dict_to_obj not found")
+    for p in ps:
+        fx = p.effect_texts()
+        kw = [e for k, e, _ in p.effects if k == "assign" and isinstance(e.value, ast.DictComp)]
+        okk = len(kw) == 1 and match(kw[0].value, "{M_k: _to_obj(get_attr_type(M_k), M_v) for M_k, M_v in dict_obj.items()}") is not None
+        kn = norm(kw[0].targets[0]) if kw else "?"
+        T = "tpm_type.encrypted()" if p.truth(E) else "tpm_type"
+        ok = okk and p.end == "return" and p.value_text() == f"{T}(**{kn})"
+        run.ob("A4", ok, f"_dict_to_obj [{label(p)}]: objects are rebuilt as tpm_type(**{{field name: converted value}})",
+               f"_dict_to_obj construction changed: returns `{p.value_text()}` from {[e for k, e in fx if k == 'assign']}", module=mod,
+               node=p.node or d2o, func=d2o.name, construct="_dict_to_obj construction")
+        # a Command's own code selects its areas
+        cc = p.env.get("command_code")
+        cc = "command_code" if cc is None else paths.text(cc)
+        t = p.truth(C)
+        run.ob("A4", t is not None and cc == ("dict_obj['commandCode']" if t else "command_code"), "a Command's own code selects its areas",
+               f"on the path [{label(p)}] the command code is `{cc}`: command-code extraction for Command changed", module=mod,
+               node=d2o, func=d2o.name, construct="_dict_to_obj command code")
+        # encrypted areas use the synthesised layout
+        t = p.truth(E)
+        cur = "tpm_type" if p.env.get("tpm_type") is None else paths.text(p.env["tpm_type"])
+        run.ob("A4", t is not None and cur == T, "an encrypted area is rebuilt with the synthesised encrypted layout",
+               f"on the path [{label(p)}] the layout is `{cur}`: encrypted() substitution in _dict_to_obj changed", module=mod,
+               node=d2o, func=d2o.name, construct="_dict_to_obj encrypted")
+        # Response: the command code used for the area types is remembered
+        sets = [e for k, e in fx if k == "call" and "__setattr__" in e or k == "store" and "_command_code" in e]
+        t = p.truth(f"{T} is Response")
+        want = [f"object.__setattr__({T}(**{kn}), '_command_code', {cc})"] if t else []
+        run.ob("A4", t is not None and sets == want, "a rebuilt Response remembers its command code",
+               f"on the path [{label(p)}] the bookkeeping is {sets}: _command_code bookkeeping changed", module=mod, node=d2o,
+               func=d2o.name, construct="_dict_to_obj _command_code")
     for w in ("process_tpms", "process_command", "process_response", "process_tpm2b"):
         fn = roles.walkers[w]
         rets = [r for r in walk_no_nested(fn) if isinstance(r, ast.Return) and isinstance(r.value, ast.Tuple) and len(r.value.elts) == 2]
         bad = [r for r in rets if norm(r.value.elts[1]) not in ("tpm_type(**values)", "None")]
         run.ob("A4", rets and not bad, f"{w}: the decoder's object is tpm_type(**values)", f"returns {[norm(r.value.elts[1]) for r in bad]}",
                module=roles.mod, node=bad[0] if bad else fn, func=w, construct=f"{w} object construction")
-    # Response: the command code used for the area types is remembered
-    sc = [c for c in walk_no_nested(d2o) if isinstance(c, ast.Call) and norm(c.func) == "object.__setattr__"]
-    ok = len(sc) == 1 and [norm(a) for a in sc[0].args] == ["obj", "'_command_code'", "command_code"]
-    run.ob("A4", ok, "a rebuilt Response remembers its command code", "_command_code bookkeeping changed", module=mod, node=d2o,
-           func=d2o.name, construct="_dict_to_obj _command_code")
-    # area types resolved through the same tables as the decoder
+    # ---- area types resolved through the same tables as the decoder
     gat = mod.functions().get("_dict_to_obj.get_attr_type")
-    txt = norm(gat) if gat is not None else ""
-    ok = canon("type_map = tpm_type._type_maps[name]") in txt and canon("result_type = type_map[selector_value]") in txt and \
-        canon("selector_value = dict_obj[selector_name]") in txt and canon("selector_value = command_code") in txt and \
-        canon("selector_name = tpm_type._selectors[name]") in txt
-    run.ob("A4", ok, "area layouts are looked up in the decoder's tables with the decoder's keys", "get_attr_type changed", module=mod,
-           node=gat or d2o, func="_dict_to_obj.get_attr_type", construct="get_attr_type")
-    cmd = [s for s in d2o.body if isinstance(s, ast.If) and norm(s.test) == "tpm_type is Command"]
-    ok = len(cmd) == 1 and [norm(x) for x in cmd[0].body] == [canon("command_code = dict_obj['commandCode']")]
-    run.ob("A4", ok, "a Command's own code selects its areas", "command-code extraction for Command changed", module=mod, node=d2o,
-           func=d2o.name, construct="_dict_to_obj command code")
-    # encrypted detection
+    if gat is None:
+        raise AnalysisError("C11: _dict_to_obj.get_attr_type not found")
+    nm = gat.args.args[0].arg
+    base = f"next((f for f in fields(tpm_type) if f.name == {nm})).type"
+    gps = paths.summarise(mod, gat)
+    ft = None
+    for p in gps:
+        if p.end == "return" and not p.cond:
+            pass
+    # find the field-type expression the function uses (generator variable name is free)
+    cand = {p.value_text() for p in gps if p.end == "return"}
+    ftx = [c for c in cand if "_type_maps" not in c]
+    run.ob("A4", len(ftx) == 1 and match(paths.pattern_expr(ftx[0]), f"next((M_f for M_f in fields(tpm_type) if M_f.name == {nm})).type") is not None,
+           "a field's declared type comes from the dataclass fields", f"get_attr_type resolves declared types as {ftx}", module=mod,
+           node=gat, func="_dict_to_obj.get_attr_type", construct="get_attr_type")
+    if len(ftx) == 1:
+        FT = ftx[0]
+        A, H = f"{FT} is Any", "hasattr(tpm_type, '_selectors')"
+        spec = [({A: True, H: True}, f"tpm_type._type_maps[{nm}][dict_obj[tpm_type._selectors[{nm}]]]"),
+                ({A: True}, f"tpm_type._type_maps[{nm}][command_code]")]
+        for p in gps:
+            if p.end != "return":
+                continue
+            want = paths.decide(spec, FT, p)
+            run.ob("A4", want == {p.value_text()}, f"get_attr_type [{label(p)[:70]}]",
+                   f"area layouts are no longer looked up in the decoder's tables with the decoder's keys: returns `{p.value_text()}` "
+                   f"where {sorted(want)} is required", module=mod, node=p.node or gat, func="_dict_to_obj.get_attr_type",
+                   construct="get_attr_type")
+    # ---- encrypted detection
     pm = project.module(PARAMS)
     ie = pm.functions().get("TPMS_PARAMS.is_encrypted_params")
     if ie is None:
         raise AnalysisError("C11: is_encrypted_params not found")
-    txt = norm(ie)
-    ok = canon("return list(first_field_value.keys()) == list(TPM2B_ENCRYPTED_PARAM.__annotations__.keys())") in txt and \
-        canon("first_field_value = list(fields_dict.values())[0]") in txt
-    run.ob("A4", ok, "encrypted parameter areas are recognised by the field names of TPM2B_ENCRYPTED_PARAM in first position",
-           "is_encrypted_params changed", module=pm, node=ie, func="TPMS_PARAMS.is_encrypted_params", construct="is_encrypted_params")
-    use = [s for s in d2o.body if isinstance(s, ast.If) and norm(s.test) == "TPMS_PARAMS.is_encrypted_params(dict_obj)"]
-    ok = len(use) == 1 and [norm(x) for x in use[0].body] == ["tpm_type = tpm_type.encrypted()"]
-    run.ob("A4", ok, "an encrypted area is rebuilt with the synthesised encrypted layout", "encrypted() substitution in _dict_to_obj changed",
-           module=mod, node=d2o, func=d2o.name, construct="_dict_to_obj encrypted")
-    # events_to_obj ignores info events only
-    flt = [g for g in walk_no_nested(e2o) if isinstance(g, ast.GeneratorExp)]
-    ok = len(flt) == 1 and len(flt[0].generators[0].ifs) == 1 and norm(flt[0].generators[0].ifs[0]) == "isinstance(e, MarshalEvent)".replace("e,", norm(flt[0].generators[0].target) + ",")
-    run.ob("A4", ok, "only warnings/info events are ignored when building objects", "event filter of events_to_obj changed", module=mod,
-           node=e2o, func=e2o.name, construct="events_to_obj filter")
+    x = ie.args.args[0].arg
+    first = f"list({x}.values())[0]"
+    D, N, F = f"isinstance({x}, dict)", f"truthy {x}", f"isinstance({first}, dict)"
+    spec = [({D: False}, f"hasattr({x}, '_encrypted') and {x}._encrypted"), ({N: False}, "False"), ({F: False}, "False")]
+    decided(run, "A4", pm, ie, spec, f"list({first}.keys()) == list(TPM2B_ENCRYPTED_PARAM.__annotations__.keys())", "is_encrypted_params",
+            "encrypted parameter areas must be recognised by the field names of TPM2B_ENCRYPTED_PARAM in first position")
+    # ---- events_to_obj ignores info events only, and converts the root node
+    eps = paths.summarise(mod, e2o)
+    ok = len(eps) == 1 and eps[0].end == "return" and match(
+        eps[0].value, "_to_obj(_events_to_dict((M_e for M_e in events if isinstance(M_e, MarshalEvent)))[1], "
+        "_events_to_dict((M_e for M_e in events if isinstance(M_e, MarshalEvent)))[0][PATH_NODE_ROOT_NAME], command_code=command_code)") is not None
+    run.ob("A4", ok, "only warnings/info events are ignored when building objects; the root node is converted with the command code",
+           f"events_to_obj returns `{eps[0].value_text() if eps else None}`: event filter / root conversion of events_to_obj changed",
+           module=mod, node=e2o, func=e2o.name, construct="events_to_obj filter")
+    # ---- _to_obj dispatch
+    v = to.args.args[1].arg
+    Dv, Tv, Fv, Lv = f"isinstance({v}, dict)", f"truthy {v}", "fields(tpm_type)", f"isinstance({v}, list)"
+    spec = [({Dv: True, Tv: False, Fv: True}, "None"), ({Dv: True}, f"_dict_to_obj(tpm_type, {v}, command_code=command_code)"),
+            ({Lv: True}, f"_list_to_obj(tpm_type, {v})")]
+    decided(run, "A4", mod, to, spec, v, "_to_obj dispatch", "dict nodes become objects, list nodes lists, leaves stay")
 
 
 def a5(run, mod, roles):
@@ -207,17 +325,11 @@ def a5(run, mod, roles):
         if isinstance(s, ast.Assign) and isinstance(s.targets[0], ast.Subscript) and norm(s.targets[0].value) == "values" \
                 and isinstance(s.value, ast.Constant) and s.value.value is None:
             sites.append(("empty structured TPM2B payload", roles.mod, tb, s))
-    # builder: does any path of _to_obj/_dict_to_obj map an empty dict to None?
+    # builder: does a path of _to_obj map an empty dict node to None?
     to = mod.functions().get("_to_obj")
-    d2o = mod.functions().get("_dict_to_obj")
-    maps_empty_to_none = False
-    for fn in (to, d2o):
-        for s in walk_no_nested(fn):
-            if isinstance(s, ast.If):
-                t = norm(s.test)
-                if any(p in t for p in ("not value", "value == {}", "len(value) == 0", "not dict_obj", "dict_obj == {}", "len(dict_obj) == 0")) \
-                        and any(isinstance(r, ast.Return) and (r.value is None or norm(r.value) == "None") for r in s.body):
-                    maps_empty_to_none = True
+    v = to.args.args[1].arg
+    maps_empty_to_none = any(p.end == "return" and p.value_text() == "None" and p.truth(f"isinstance({v}, dict)") is True
+                             and p.truth(f"truthy {v}") is False for p in paths.summarise(mod, to))
     for what, m, fn, node in sites:
         run.ob("A5", maps_empty_to_none, f"{fn.name}: {what} is None in the decoder's object and in the rebuilt object",
                f"the decoder represents a {what} by None but events_to_obj rebuilds it as `tpm_type()` (an empty instance): "
